@@ -153,6 +153,18 @@ def judge_v1(part, tok_name, cls, variant="std", seq_len=3):
         except Exception:  # noqa: BLE001
             part.count("v1_over_redeem_rejected")
         ctx.restore(mid)
+        for hair in (Decimal("1e-12"), Decimal("1e-25")):
+            held = m.glp_amount
+            try:
+                o = m.sell_glp(tok, held * (1 + hair))
+            except Exception:  # noqa: BLE001
+                part.count("v1_over_redeem_rejected")
+                ctx.restore(mid)
+                continue
+            if m.glp_amount < 0:
+                part.violation("C17|v1|over-redeem|hair", "a sale slightly above the GLP holding left a negative holding", dict(case, excess=str(hair)),
+                               {"held": str(held), "held_after": str(m.glp_amount)})
+            ctx.restore(mid)
         # ---- buy again with another token then sell everything for the first: total out <= total in (value terms) ---------------
         other = gmx.WAVAX if tok != gmx.WAVAX else gmx.WETH
         o_amt = Decimal(50)
@@ -313,6 +325,24 @@ def judge_v2(part, kind, impact):
         except Exception:  # noqa: BLE001
             part.count("v2_over_redeem_rejected")
         ctx.restore(mid)
+        # a request a hair above the holding: refused, or served with at most the holding - never more shares than are held
+        for hair in (1e-10, 1e-12, 3e-16):
+            held = m.amount
+            ask = held * (1 + hair)
+            if not ask > held:
+                continue
+            wl_all, ws_all = gmx.v2_redeem(row, held)
+            try:
+                o = m.withdraw(ask)
+            except Exception:  # noqa: BLE001
+                part.count("v2_over_redeem_rejected")
+                ctx.restore(mid)
+                continue
+            part.count("v2_hair_over_served")
+            if m.amount < 0 or o.long_amount > wl_all * (1 + 1e-13) + 1e-300 or o.short_amount > ws_all * (1 + 1e-13) + 1e-300:
+                part.violation("C17|v2|over-redeem|hair", "a withdrawal slightly above the holding redeemed more GM than is held", dict(case, excess=hair),
+                               {"held": held, "asked": ask, "held_after": m.amount, "paid": [o.long_amount, o.short_amount], "whole_holding_pays": [wl_all, ws_all]})
+            ctx.restore(mid)
         # ---- market balance: value and token split of the holding -----------------------------------------------------------------
         bal = m.get_market_balance()
         per_share = row["poolValue"] / row["marketTokensSupply"]
